@@ -1,6 +1,9 @@
 package rules
 
 import (
+	"go/ast"
+	"go/constant"
+	"go/token"
 	"go/types"
 	"strings"
 
@@ -56,9 +59,11 @@ func hasMethodNamed(tn *types.TypeName, names ...string) bool {
 	if !ok {
 		return false
 	}
+	// the method set of *T, promoted methods of embedded parts included
 	have := map[string]bool{}
-	for i := 0; i < named.NumMethods(); i++ {
-		have[named.Method(i).Name()] = true
+	ms := types.NewMethodSet(types.NewPointer(named))
+	for i := 0; i < ms.Len(); i++ {
+		have[ms.At(i).Obj().Name()] = true
 	}
 	for _, n := range names {
 		if !have[n] {
@@ -70,6 +75,43 @@ func hasMethodNamed(tn *types.TypeName, names ...string) bool {
 
 // ownerRole classifies the struct types the rules care about by their method sets.
 func ownerRole(p *core.Program, tn *types.TypeName) string {
+	if tn == nil || tn.Pkg() == nil {
+		return ""
+	}
+	if r := ownRole(p, tn); r != "" {
+		return r
+	}
+	// an unexported struct that is embedded in a role struct is part of it
+	sc := tn.Pkg().Scope()
+	for _, n := range sc.Names() {
+		outer, ok := sc.Lookup(n).(*types.TypeName)
+		if !ok || outer == tn {
+			continue
+		}
+		st, ok := outer.Type().Underlying().(*types.Struct)
+		if !ok {
+			continue
+		}
+		for i := 0; i < st.NumFields(); i++ {
+			f := st.Field(i)
+			if !f.Embedded() {
+				continue
+			}
+			t := f.Type()
+			if pt, isPtr := t.(*types.Pointer); isPtr {
+				t = pt.Elem()
+			}
+			if nt, isNamed := t.(*types.Named); isNamed && nt.Obj() == tn {
+				if r := ownRole(p, outer); r != "" {
+					return r
+				}
+			}
+		}
+	}
+	return ""
+}
+
+func ownRole(p *core.Program, tn *types.TypeName) string {
 	if tn == nil || tn.Pkg() == nil {
 		return ""
 	}
@@ -226,4 +268,41 @@ func trackerMethod(p *core.Program, name string) *core.Func {
 		}
 	}
 	return nil
+}
+
+var importPrinterCache = map[*core.Program]*core.Func{}
+
+// importPrinter: the function of pkg/gengo that writes the import block - the one that emits the
+// constant text "import (" - whatever it is called and whether it is a function or a method.
+func importPrinter(p *core.Program) *core.Func {
+	if f, ok := importPrinterCache[p]; ok {
+		return f
+	}
+	var found *core.Func
+	for _, f := range p.Funcs() {
+		if f.Decl == nil || core.RelPkg(f.Pkg.PkgPath) != "pkg/gengo" || f.Decl.Name.IsExported() {
+			continue
+		}
+		info := f.Info()
+		has := false
+		ast.Inspect(f.Body, func(n ast.Node) bool {
+			if lit, ok := n.(*ast.BasicLit); ok && lit.Kind == token.STRING {
+				if tv := info.Types[lit]; tv.Value != nil && tv.Value.Kind() == constant.String && strings.Contains(constant.StringVal(tv.Value), "import (") {
+					has = true
+				}
+			}
+			return !has
+		})
+		if has && found == nil {
+			found = f
+		}
+	}
+	importPrinterCache[p] = found
+	return found
+}
+
+// isImportPrinterCall: c calls the import printer.
+func isImportPrinterCall(p *core.Program, info *types.Info, c *ast.CallExpr) bool {
+	ip := importPrinter(p)
+	return ip != nil && ip.Obj() != nil && core.CalleeFunc(info, c) == ip.Obj()
 }
